@@ -185,6 +185,28 @@ func goAnswer(tab reftable.Table, q *c15query) (string, error) {
 			rs, err := rtx.DrainRefs(it, 0)
 			out = xDump(rs, nil)
 			return err
+		case "readref":
+			rr, err := reftable.ReadRef(tab, q.key)
+			if err != nil {
+				return err
+			}
+			if rr != nil {
+				g := rtx.FromRef(rr)
+				if g.Kind != gen.KDel {
+					out = xRef(&g) + "\n"
+				}
+			}
+			return nil
+		case "readlog":
+			lr, err := reftable.ReadLogAt(tab, q.key, ^uint64(0))
+			if err != nil {
+				return err
+			}
+			if lr != nil {
+				g := rtx.FromLog(lr)
+				out = xLog(&g) + "\n"
+			}
+			return nil
 		}
 		return nil
 	})
@@ -494,6 +516,9 @@ func (d *cdriver) stackCase(idx int) {
 	keys := gen.FlatKeys(6)
 	opts := gen.TxnOpts{Keys: keys, MaxRefs: 3, Journal: true, DelP: 0.25, LogTombP: 0.2, SymP: 0.1, PeeledP: 0.15}
 	qs := mkQueries(rng, append(keys, gen.JournalRef), append(keys, gen.JournalRef), nil, false)
+	for _, k := range append(append([]string{}, keys...), gen.JournalRef, "refs/heads/absent") {
+		qs = append(qs, &c15query{line: "readref " + hx([]byte(k)), kind: "readref", key: k}, &c15query{line: "readlog " + hx([]byte(k)), kind: "readlog", key: k})
+	}
 	idh := fmt.Sprint("stack/", c.Seed, "/", idx)
 
 	// (c) Go writes a stack, C reads it
